@@ -147,6 +147,18 @@ func genIds(tier string, rng *RNG, emit func(Case)) {
 		emitDoc(emit, "# a\n\n## b c\n\n# a-1\n\nx\n===\n", []string{big.String(), "# z\n"})
 		emitDoc(emit, big.String(), []string{big.String()})
 	}
+	// very LONG heading texts that agree on a long prefix (a length cap on ids, a fixed-size scratch buffer or a hash of
+	// a prefix would make them collide): common prefix of p bytes, then identical / different tails, ATX and Setext,
+	// top level and inside containers
+	word := "could not resolve the dependency graph because two packages require incompatible versions "
+	for _, p := range []int{30, 60, 63, 64, 65, 95, 96, 97, 127, 128, 129, 200, 255, 256, 257, 511, 512, 1000, 1024, 4096} {
+		pre := strings.Repeat(word, p/len(word)+1)[:p]
+		for _, tails := range [][2]string{{"", ""}, {" x", " y"}, {"", " z"}, {" tail one", " tail two"}} {
+			a, b := pre+tails[0], pre+tails[1]
+			emitDoc(emit, "# "+a+"\n\ntext\n\n# "+b+"\n", nil)
+			emitDoc(emit, "> "+a+"\n> ---\n\n- ### "+b+"\n\n"+a+"\n===\n", []string{"# " + a + "\n"})
+		}
+	}
 }
 
 func randHeadingText(rng *RNG, sub []string) string {
